@@ -42,6 +42,14 @@ func wd() string {
 			d, _ = os.MkdirTemp("", "evyverif-c08-")
 		}
 		workDir = d
+		// `cls` in the terminal platform runs the external `clear` command: give it a
+		// stub that leaves a visible mark in the captured output
+		bin := filepath.Join(d, "bin")
+		if os.MkdirAll(bin, 0o755) == nil {
+			if os.WriteFile(filepath.Join(bin, "clear"), []byte("#!/bin/sh\necho '<CLEAR>'\n"), 0o755) == nil {
+				os.Setenv("PATH", bin+string(os.PathListSeparator)+os.Getenv("PATH")) //nolint:errcheck
+			}
+		}
 	}
 	return workDir
 }
@@ -64,6 +72,9 @@ func cliBase(idx int, ctx *core.Ctx) *core.Scenario {
 	sc := work.Generated(r, o, "C08", ctx.Seed, idx)
 	// make sure the random source matters
 	sc.Program = "print (rand 1000) (rand1) (rand 10)\n" + sc.Program
+	if r.Chance(0.4) {
+		sc.Program = "print \"frame 0\"\ncls\nprint \"frame 1\"\ncls\nprint \"frame 2\"\nsleep 0.001\ncls\n" + sc.Program
+	}
 	sc.Kind = "cli"
 	sc.Level = "cli"
 	sc.RandSeed = int64(1 + r.Intn(1000))
@@ -114,9 +125,11 @@ func runCLI(sc *core.Scenario, s core.Schedule, path string) cliOut {
 func cliSchedules() []core.Schedule {
 	a := core.Schedule{}
 	a.Map.Default = maporder.Policy{Kind: maporder.Asc}
-	b := core.Schedule{EpochNs: 1 << 42, GlobalRand: 77, HeapPrealloc: 500}
+	// the clock-read cost differs by orders of magnitude: anything that measures
+	// elapsed time sees a fast machine in one repetition and a slow one in the next
+	b := core.Schedule{EpochNs: 1 << 42, GlobalRand: 77, HeapPrealloc: 500, ClockCostNs: 30_000_000}
 	b.Map.Default = maporder.Policy{Kind: maporder.Desc}
-	c := core.Schedule{EpochNs: 123456789, GlobalRand: 5}
+	c := core.Schedule{EpochNs: 123456789, GlobalRand: 5, ClockCostNs: 3_000}
 	c.Map.Default = maporder.Policy{Kind: maporder.Shuffle, Seed: 99}
 	return []core.Schedule{a, b, c, a}
 }
